@@ -62,6 +62,7 @@ var props = map[string]*propDef{
 		Harnesses: []harnessDef{
 			{Name: "proto.VerifC14History", Quick: map[string]int{"maxops": 3}, Thorough: map[string]int{"maxops": 4}},
 			{Name: "proto.VerifC14History", Quick: map[string]int{"maxops": 2}, Thorough: map[string]int{"maxops": 3}, Cfg: func(c *sym.Config) { c.GrowExact = true }},
+			{Name: "proto.VerifC14LongValues", Cfg: bigSteps},
 			{Must: mustC14, Name: "proto.VerifC14GenLeaves", Quick: map[string]int{"maxrows": 2}, Thorough: map[string]int{"maxrows": 3}},
 			{Must: mustC14, Name: "proto.VerifC14PlainLeaves", Quick: map[string]int{"maxrows": 2, "maxstr": 1}, Thorough: map[string]int{"maxrows": 3, "maxstr": 2}},
 			{Must: mustC14, Name: "proto.VerifC14Composites", Quick: map[string]int{"maxrows": 2, "maxstr": 1, "maxinner": 1}, Thorough: map[string]int{"maxrows": 2, "maxstr": 1, "maxinner": 2}},
@@ -194,6 +195,7 @@ var props = map[string]*propDef{
 			{Name: "proto.VerifC18Bind", OnlyTier: "quick", Quick: map[string]int{"maxcols": 2, "srvmax": 4, "tgtmax": 4}, Optional: []string{"compatible-block-rejected", "enum-adopted", "precision-adopted"}},
 			{Name: "proto.VerifC18Names"},
 			{Name: "proto.VerifC18Decimal"},
+			{Name: "proto.VerifC18AutoSequence", Optional: []string{"same-schema-rejected"}},
 		},
 	},
 	"C05": {
@@ -235,6 +237,8 @@ var props = map[string]*propDef{
 		Harnesses: []harnessDef{
 			{Name: "ch.VerifC02Query", Quick: map[string]int{"maxstr": 1}, Thorough: map[string]int{"maxstr": 2}},
 			{Name: "ch.VerifC02Insert", Quick: map[string]int{"maxrows": 2}, Thorough: map[string]int{"maxrows": 3}},
+			// "then the input blocks in order": streamed input (OnInput) is the C09 harness, run here as well
+			{Name: "ch.VerifC09Stream", Quick: map[string]int{"maxrounds": 2}, Thorough: map[string]int{"maxrounds": 2}},
 		},
 	},
 	"C09": {
@@ -285,7 +289,7 @@ var props = map[string]*propDef{
 		ID: "C10", Level: "model_checking", Rule: ruleDefault,
 		Assumptions: append([]string{
 			"the caller's context is a harness type whose cancellation flips at the k-th observation (Err/Done/Deadline call), k enumerated; cancellation can only be observed at those points, so this is cancellation 'at any time' up to non-preemptive schedules",
-			"wall-clock promptness is outside; a silent server yields a read timeout, after which the receive loop must re-check the context",
+			"time is the harness' virtual clock: time.Now is a model (+1 ms per call), a blocked Read advances it to the read deadline the client set and then times out, a deadline context (2.5 s or 0.4 s, ReadTimeout 1 s) expires when the clock reaches its deadline or - arbitrary time may pass between two observations - at the k-th observation; promptness = back within 3 s of the cancellation/expiry on that clock; real wall-clock time is outside",
 		}, baseAssumptions...),
 		Harnesses: []harnessDef{
 			{Name: "ch.VerifC10Cancel", Repeat: 200, Cfg: noReturn, Optional: []string{"completed-stream"}, Quick: map[string]int{"maxgate": 10}, Thorough: map[string]int{"maxgate": 24}},
